@@ -10,7 +10,7 @@ import itertools
 import warnings
 
 from .common import (clause, Fail, Skip, qv, LABELS, INT_COEFS, gen_models, all_small_models, variables_of,
-                     peval, canonical_keys)
+                     peval)
 
 RELS = ("eq", "ne", "lt", "le", "gt", "ge")
 HOLDS = {
